@@ -30,13 +30,17 @@ def is_member(t, member):
     return isinstance(t, tuple) and t[0] == "mem" and t[2] == member and (t[1] == ("this",) or t[1][0] == "this")
 
 
+CAPACITY_ONLY = {"reserve", "shrink_to_fit", "capacity", "max_size", "get_allocator"}
+
+
 def maximal_uses(t, member, out):
     """smallest call/subscript/bare expressions on this->member, in source order"""
     if not isinstance(t, tuple):
         return
     k = t[0]
     if k == "call" and t[1][0] == "mem" and is_member(t[1][1], member):
-        out.append(t)
+        if t[1][2] not in CAPACITY_ONLY:          # reserve()/shrink_to_fit()/capacity() change no length and no element: nothing to mirror
+            out.append(t)
         for a in t[2:]:
             maximal_uses(a, member, out)
         return
@@ -128,6 +132,16 @@ def rule_pairing(rep, d):
             where = d.where(fn)
             plain_params = {p.get("name") for p in ir.params(fn) if "xoptional<" not in ir.wtype(p) and "xcomplex<" not in ir.wtype(p)
                             and "size_type" not in ir.wtype(p)}
+            # a local copy of a plain value parameter is a plain value too (`const base_value_type fill = v;`)
+            grew = True
+            while grew:
+                grew = False
+                for v_ in ir.walk_expr(fn):
+                    if v_.get("kind") == "VarDecl" and ir.ekids(v_) and v_.get("name") not in plain_params:
+                        it_ = strip_casts(ir.sx(ir.ekids(v_)[-1]))
+                        if it_[0] == "ref" and it_[1] in plain_params:
+                            plain_params.add(v_.get("name"))
+                            grew = True
             roots = function_terms(fn)
             A, B = [], []
             inits = {}
@@ -381,6 +395,15 @@ def rule_make(rep):
                         a = ir.sx(ir.ekids(c)[1]) if len(ir.ekids(c)) > 1 else None
                         if vparam is not None and a == ("ref", vparam):
                             return "fill"
+                        an = ir.strip(ir.ekids(c)[1]) if len(ir.ekids(c)) > 1 else None
+                        while an is not None and an.get("kind") in ("CXXFunctionalCastExpr", "CXXStaticCastExpr", "CStyleCastExpr", "MaterializeTemporaryExpr") and ir.ekids(an):
+                            an = ir.strip(ir.ekids(an)[-1])
+                        if an is not None and (an.get("kind") in ("CXXScalarValueInitExpr", "ImplicitValueInitExpr") or
+                                               (an.get("kind") in ("CXXTemporaryObjectExpr", "CXXConstructExpr") and not ir.ekids(an) and an.get("zeroing")) or
+                                               (an.get("kind") in ("IntegerLiteral", "FloatingLiteral") and float(an.get("value", 1)) == 0.0) or
+                                               (an.get("kind") == "CXXBoolLiteralExpr" and not an.get("value")) or
+                                               (an.get("kind") == "InitListExpr" and not ir.ekids(an))):
+                            return "zero"           # filled with a value-initialised element
                         return ("bad", "filled with `%s`, expected the value parameter" % (ir.show(a) if a else "?"))
             return how
         return None
